@@ -63,7 +63,7 @@ static void world_setup(void)
 #define LONGNAME() do { if (vr_chance(&G, 1, 4)) { static const size_t ln_[] = { 32, 33, 40, 63, 64, 130, 200, 330, 700 }; size_t want_ = ln_[vr_below(&G, 9)], at_ = strlen(nm); while (at_ < want_) { nm[at_] = (at_ % 9 == 0) ? '/' : (char)('a' + at_ % 26); at_++; } nm[at_] = 0; VR_CNT("objects_with_names_longer_than_the_name_field"); } } while (0)
     for (int k = 0; k < NR; k++) { if (!again) RES[k] = cmb_resource_create(); snprintf(nm, sizeof nm, "res%d", k); LONGNAME(); cmb_resource_initialize(RES[k], nm); if (again && (cmb_resource_in_use(RES[k]) != 0 || cmb_resource_available(RES[k]) != 1)) VIOL("C05/in-use-after-reinitialize", "resource %d initialised again but in use", k); sh_res_holder[k] = -1; add_guard(&RES[k]->guard, GT_RES, k); add_rec(RC_RES, k); }
     for (int k = 0; k < NPL; k++) { if (!again) POOL[k] = cmb_resourcepool_create(); POOLCAP[k] = 1 + vr_below(&G, 8); if (vr_chance(&G, 1, 8)) { static const uint64_t huge[] = { UINT64_MAX, ((uint64_t)1 << 63) + 5, UINT64_MAX - 1 }; POOLCAP[k] = huge[vr_below(&G, 3)]; VR_CNT("pools_with_capacity_above_2_63"); } snprintf(nm, sizeof nm, "pool%d", k); LONGNAME(); cmb_resourcepool_initialize(POOL[k], nm, POOLCAP[k]); if (again && (cmb_resourcepool_in_use(POOL[k]) != 0 || cmb_resourcepool_available(POOL[k]) != POOLCAP[k])) VIOL("C07/in-use-after-reinitialize", "pool %d initialised again with capacity %" PRIu64 ": in_use %" PRIu64 ", available %" PRIu64, k, POOLCAP[k], cmb_resourcepool_in_use(POOL[k]), cmb_resourcepool_available(POOL[k])); add_guard(&POOL[k]->guard, GT_POOL, k); add_rec(RC_POOL, k); for (int q = 0; q < MAXP; q++) { sh_pool[k][q] = 0; last_lib_pool[k][q] = 0; } ppre_pid[k] = -1; }
-    for (int k = 0; k < NB; k++) { if (!again) BUF[k] = cmb_buffer_create(); BUFCAP[k] = bufcaps[vr_below(&G, 5)]; snprintf(nm, sizeof nm, "buf%d", k); LONGNAME(); cmb_buffer_initialize(BUF[k], nm, BUFCAP[k]); if (again && (cmb_buffer_level(BUF[k]) != 0 || cmb_buffer_space(BUF[k]) != BUFCAP[k])) VIOL("C11/level-after-reinitialize", "buffer %d initialised again with capacity %" PRIu64 ": level %" PRIu64 ", space %" PRIu64, k, BUFCAP[k], cmb_buffer_level(BUF[k]), cmb_buffer_space(BUF[k])); buf_last[k] = cmb_buffer_level(BUF[k]); buf_init[k] = buf_last[k]; buf_put_total[k] = buf_got_total[k] = 0; add_guard(&BUF[k]->front_guard, GT_BUFFRONT, k); add_guard(&BUF[k]->rear_guard, GT_BUFREAR, k); add_rec(RC_BUF, k); }
+    for (int k = 0; k < NB; k++) { if (!again) BUF[k] = cmb_buffer_create(); BUFCAP[k] = bufcaps[vr_below(&G, 5)]; snprintf(nm, sizeof nm, "buf%d", k); LONGNAME(); cmb_buffer_initialize(BUF[k], nm, BUFCAP[k]); if (again && (cmb_buffer_level(BUF[k]) != 0 || cmb_buffer_space(BUF[k]) != BUFCAP[k])) VIOL("C11/level-after-reinitialize", "buffer %d initialised again with capacity %" PRIu64 ": level %" PRIu64 ", space %" PRIu64, k, BUFCAP[k], cmb_buffer_level(BUF[k]), cmb_buffer_space(BUF[k])); buf_last[k] = cmb_buffer_level(BUF[k]); buf_init[k] = buf_last[k]; buf_put_total[k] = buf_got_total[k] = 0; acct_put[k] = acct_got[k] = 0; add_guard(&BUF[k]->front_guard, GT_BUFFRONT, k); add_guard(&BUF[k]->rear_guard, GT_BUFREAR, k); add_rec(RC_BUF, k); }
     for (int k = 0; k < NOQ; k++) { if (!again) OQ[k] = cmb_objectqueue_create(); OQCAP[k] = qcaps[vr_below(&G, 4)]; snprintf(nm, sizeof nm, "oq%d", k); LONGNAME(); cmb_objectqueue_initialize(OQ[k], nm, OQCAP[k]); if (again && (cmb_objectqueue_length(OQ[k]) != 0 || cmb_objectqueue_space(OQ[k]) != OQCAP[k])) VIOL("C12/length-after-reinitialize", "objectqueue %d initialised again: length %" PRIu64, k, cmb_objectqueue_length(OQ[k])); oqn[k] = 0; add_guard(&OQ[k]->front_guard, GT_OQFRONT, k); add_guard(&OQ[k]->rear_guard, GT_OQREAR, k); add_rec(RC_OQ, k); }
     for (int k = 0; k < NPQ; k++) { if (!again) PQ[k] = cmb_priorityqueue_create(); PQCAP[k] = qcaps[vr_below(&G, 4)]; snprintf(nm, sizeof nm, "pq%d", k); LONGNAME(); cmb_priorityqueue_initialize(PQ[k], nm, PQCAP[k]); if (again && (cmb_priorityqueue_length(PQ[k]) != 0 || cmb_priorityqueue_space(PQ[k]) != PQCAP[k])) VIOL("C12/length-after-reinitialize", "priorityqueue %d initialised again: length %" PRIu64, k, cmb_priorityqueue_length(PQ[k])); if (again) { /* handles of the earlier life stay known to the scripts: they name objects that are gone, whatever the new life queues */
             for (int j = 0; j < pqn[k]; j++) { if (pq_ndead[k] < 64) pq_dead[k][pq_ndead[k]++] = pqm[k][j].h; else pq_dead[k][vr_below(&G, 64)] = pqm[k][j].h; } if (pq_ndead[k]) VR_CNT("c12_queues_reinitialised_with_old_handles_remembered"); }
